@@ -66,3 +66,40 @@ func ZZ_C08_duplicatesWhilePausedOrFrozen() {
 }
 
 func durSec(s int64) time.Duration { return time.Duration(s) * time.Second }
+
+// ZZ_C08_pausedStillCreatesThroughTheSync: "while the rolling-update-paused annotation is true the active
+// replica set deletes no pod in order to update it but still creates pods on eligible nodes that have none;
+// while the rollout-frozen annotation is true it neither creates pods nor deletes pods for updating" — through
+// the whole replica-set sync (the strategy's verdict and what the controller then does with it): node0 holds
+// an outdated Ready pod, node1 no pod at all (it joined during the pause).
+func ZZ_C08_pausedStillCreatesThroughTheSync() {
+	c, ds, rsNew, _ := zzStore(2)
+	ds.Status.ActiveReplicaSet = rsNew.Name
+	sw := nondet.String("switch", "none", "rolling-update-paused", "rollout-frozen", "both")
+	if sw == "rolling-update-paused" || sw == "both" {
+		ds.Annotations[datadoghqv1alpha1.ExtendedDaemonSetRollingUpdatePausedAnnotationKey] = "true"
+	}
+	if sw == "rollout-frozen" || sw == "both" {
+		ds.Annotations[datadoghqv1alpha1.ExtendedDaemonSetRolloutFrozenAnnotationKey] = "true"
+	}
+	c.Pods = append(c.Pods, zzPod("outdated", zzNodeName(0), zzOldRS, zzHashOld, 0, corev1.PodRunning, true, nondet.Base().Add(durSec(-3600))))
+	_, err := zzReconcile(zzReconciler(c, nondet.Bool("nodeAffinitySupported")), zzNS, rsNew.Name)
+	nondet.Assert("C08.sync.noerror", err == nil)
+	createdOnNode1, deletedOutdated := 0, false
+	for _, e := range c.Log {
+		if e.Kind == "Pod" && e.Verb == "create" {
+			nondet.Assert("C08.sync.creates-only-on-the-free-node", e.Node == zzNodeName(1))
+			createdOnNode1++
+		}
+		if e.Kind == "Pod" && e.Verb == "delete" {
+			deletedOutdated = true
+		}
+	}
+	frozen := sw == "rollout-frozen" || sw == "both"
+	paused := sw == "rolling-update-paused" || sw == "both"
+	nondet.Assert("C08.sync.free-node-served-unless-frozen", (createdOnNode1 == 1) == !frozen)
+	nondet.Assert("C08.sync.no-update-deletion-while-paused-or-frozen", !(paused || frozen) || !deletedOutdated)
+	nondet.Observe("created", createdOnNode1)
+	nondet.Observe("deleted", deletedOutdated)
+	nondet.Reach("C08.sync.paused-creates", sw == "rolling-update-paused" && createdOnNode1 == 1)
+}
